@@ -12,7 +12,7 @@ import tempfile
 import time
 from concurrent.futures import ThreadPoolExecutor
 
-from harness import common, tlegen
+from harness import common, tlegen, numeric
 
 LEVEL = "proof"
 PLATFORM = "NOAA-19"          # registered in the packaged platforms.txt (33591) and in the custom one
@@ -322,7 +322,12 @@ def run(ctx):
         "values outside the stated space (TLES='' , PYORBITAL_CONFIG_PATH='', a path containing ADMIN_MESSAGE that is not XML) are not covered",
     ]
     ctx.extra["exhaustive"] = True
+    src, _names = numeric.regen_ast(ctx, "source", "the if / elif / else tree of _get_uris_and_open_func over its four tests and the "
+                                    "(uris, open_func) pair of every arm; glob / getctime / the environment stay the hand model's inputs",
+                                    optional=True)
     ctx.build_props("props/C16.v")
+    if src is not None:
+        ctx.build_props("props/C16_source.v")
     rows, out = coq_table()
     if rows is None or len(rows) != 432:
         ctx.corr_fail("M_Source.table evaluation in Coq", {"error": (out or "")[-400:], "rows": 0 if rows is None else len(rows)})
